@@ -51,6 +51,7 @@ fn run_list(specs: &[ExchangeSpec], full: &[u8], offsets_out: &mut Vec<usize>, s
                             payload: if nobody { vec![] } else { b"ok".to_vec() },
                             close_delimited: false,
                         },
+                        prep: 0,
                     };
                     let stream2 = spec2.stream();
                     match run_exchange(&spec2, Some(nf), &stream2, s).map_err(|e| format!("exchange {} (followed redirect): {}", i, e))? {
